@@ -605,6 +605,11 @@ impl Context {
                 };
                 (format!("({stream}.inner() as {target})").into(), true)
             }
+            // a `pilota.rust_wrapper_arc` target: convert to the wrapped type, then wrap
+            (_, CodegenTy::Arc(inner_ty)) => {
+                let (stream, _) = self.ident_into_ty(did, ident_ty, inner_ty);
+                (format!("::std::sync::Arc::new({stream})").into(), false)
+            }
             _ => panic!("invalid convert {:?} to {:?}", ident_ty, target),
         }
     }
@@ -856,6 +861,11 @@ impl Context {
                     .into(),
                     is_const,
                 )
+            }
+            // a `pilota.rust_wrapper_arc` target: the value of the wrapped type, wrapped
+            (l, CodegenTy::Arc(inner_ty)) => {
+                let (stream, _) = self.lit_as_rvalue(l, inner_ty)?;
+                (format!("::std::sync::Arc::new({stream})").into(), false)
             }
             _ => panic!("unexpected literal {:?} with ty {:?}", lit, ty),
         })
